@@ -1408,7 +1408,7 @@ macro_rules! skip_iterator_digits_iter_base {
 
 /// Create impl `ByteIter` block for skip iterator.
 macro_rules! skip_iterator_bytesiter_impl {
-    ($iterator:ident, $mask:ident, $count:ident, $i:ident, $l:ident, $t:ident, $c:ident) => {
+    ($iterator:ident, $mask:ident, $count:ident, $i:ident, $l:ident, $t:ident, $c:ident, $radix_cb:ident) => {
         unsafe impl<'a: 'b, 'b, const FORMAT: u128> Iter<'a> for $iterator<'a, 'b, FORMAT> {
             skip_iterator_iter_base!(FORMAT, $mask, $count);
         }
@@ -1480,7 +1480,7 @@ macro_rules! skip_iterator_bytesiter_impl {
             #[inline(always)]
             fn is_digit(&self, value: u8) -> bool {
                 let format = NumberFormat::<{ FORMAT }> {};
-                char_is_digit_const(value, format.mantissa_radix())
+                char_is_digit_const(value, format.$radix_cb())
             }
         }
     };
@@ -1499,7 +1499,8 @@ skip_iterator_bytesiter_impl!(
     INTEGER_INTERNAL_DIGIT_SEPARATOR,
     INTEGER_LEADING_DIGIT_SEPARATOR,
     INTEGER_TRAILING_DIGIT_SEPARATOR,
-    INTEGER_CONSECUTIVE_DIGIT_SEPARATOR
+    INTEGER_CONSECUTIVE_DIGIT_SEPARATOR,
+    mantissa_radix
 );
 
 // FRACTION DIGITS ITERATOR
@@ -1518,7 +1519,8 @@ skip_iterator_bytesiter_impl!(
     FRACTION_INTERNAL_DIGIT_SEPARATOR,
     FRACTION_LEADING_DIGIT_SEPARATOR,
     FRACTION_TRAILING_DIGIT_SEPARATOR,
-    FRACTION_CONSECUTIVE_DIGIT_SEPARATOR
+    FRACTION_CONSECUTIVE_DIGIT_SEPARATOR,
+    mantissa_radix
 );
 
 // EXPONENT DIGITS ITERATOR
@@ -1537,7 +1539,8 @@ skip_iterator_bytesiter_impl!(
     EXPONENT_INTERNAL_DIGIT_SEPARATOR,
     EXPONENT_LEADING_DIGIT_SEPARATOR,
     EXPONENT_TRAILING_DIGIT_SEPARATOR,
-    EXPONENT_CONSECUTIVE_DIGIT_SEPARATOR
+    EXPONENT_CONSECUTIVE_DIGIT_SEPARATOR,
+    exponent_radix
 );
 
 // SPECIAL DIGITS ITERATOR
